@@ -467,6 +467,11 @@ pub fn oracle_c09_c10(op: &str, outs: &[String], check_c09: bool, check_c10: boo
             }
         }
     }
+    if check_c10 && !fixed {
+        if let Some(f) = dlchannel_pairing(region, &evs, outs, &snaps) {
+            return f;
+        }
+    }
     if check_c10 {
         // delays: RX1 = negotiated delay (join: 5 s), RX2 = RX1 + 1 s
         for (i, (ev, out)) in evs.iter().zip(outs.iter()).enumerate() {
@@ -487,6 +492,80 @@ pub fn oracle_c09_c10(op: &str, outs: &[String], check_c09: bool, check_c10: boo
         }
     }
     "ok".into()
+}
+
+/// DlChannelReq establishes the pairing RX1 must use: when an accepted downlink carries only
+/// DlChannelReq commands, and the next uplink acknowledges one of them with both status bits set,
+/// the channel's RX1 frequency in the next snapshot is the requested one (a request naming the
+/// uplink frequency itself means "no separate downlink frequency", which is the same frequency).
+/// Judged from the history's own commands and the implementation's outputs, not from the model.
+fn dlchannel_pairing(_region: &str, evs: &[String], outs: &[String], snaps: &[Option<Snap>]) -> Option<String> {
+    for (i, (ev, out)) in evs.iter().zip(outs.iter()).enumerate() {
+        let w: Vec<&str> = ev.split_whitespace().collect();
+        if w.len() < 11 || !(w[0] == "rx1" || w[0] == "rx2") || w[3] != "d" {
+            continue;
+        }
+        if !out.contains("DownlinkReceived") {
+            continue;
+        }
+        let fopts = if w[8] == "-" { vec![] } else { unhex(w[8]) };
+        let payload = if w[10] == "-" { vec![] } else { unhex(w[10]) };
+        let cmds_bytes = if w[9] == "0" { payload } else { fopts };
+        let (cmds, whole) = split_cmds(&cmds_bytes, down_len);
+        if !whole || cmds.is_empty() || cmds.len() > 3 || cmds.iter().any(|(c, _)| *c != 0x0a) {
+            continue;
+        }
+        // the acknowledgements ride on the next uplink; the state is the next snapshot before any
+        // further downlink
+        let mut ans: Option<Vec<(u8, Vec<u8>)>> = None;
+        let mut snap: Option<Snap> = None;
+        for j in i + 1..evs.len() {
+            let w0 = evs[j].split_whitespace().next().unwrap_or("");
+            if w0 == "snap" && snap.is_none() {
+                snap = snaps[j].clone();
+            }
+            if w0 == "send" {
+                if let Some(up) = parse_tx(&outs[j]).and_then(|t| t.up) {
+                    let (a, ok) = split_cmds(&up.fopts, up_len);
+                    if ok {
+                        ans = Some(a);
+                    }
+                }
+                break;
+            }
+            if w0 != "snap" {
+                break;
+            }
+        }
+        let (ans, snap) = match (ans, snap) {
+            (Some(a), Some(s)) => (a, s),
+            _ => continue,
+        };
+        let dl_ans: Vec<u8> = ans.iter().filter(|(c, _)| *c == 0x0a).map(|(_, p)| p[0]).collect();
+        if dl_ans.len() != cmds.len() {
+            continue;
+        }
+        for (k, (_, p)) in cmds.iter().enumerate() {
+            let idx = p[0] as usize;
+            if cmds[k + 1..].iter().any(|(_, q)| q[0] as usize == idx) {
+                continue; // a later request in the same frame decides this channel
+            }
+            if dl_ans[k] & 3 != 3 {
+                continue;
+            }
+            let f = freq_of(&p[1..4]);
+            match snap.chans.get(idx).cloned().flatten() {
+                Some(c) => {
+                    let rx1 = c.dl.unwrap_or(c.freq);
+                    if rx1 != f {
+                        return Some(format!("FAIL:dlchannel-{}-acknowledged-for-channel-{}-but-rx1-frequency-is-{}", f, idx, rx1));
+                    }
+                }
+                None => return Some(format!("FAIL:dlchannel-acknowledged-for-undefined-channel-{}", idx)),
+            }
+        }
+    }
+    None
 }
 
 /// the regional maximum EIRP a device applies (RP002 defaults)
